@@ -95,7 +95,6 @@ RunVerdict(e, k) ==
     ELSE IF HasRun(e, -1, r.pooling) /\ GroupsOf(r.emits) # GroupsOf(e.runs[RunOf(e, -1, r.pooling)].emits) THEN "Inv_C07_SamePartition"
     ELSE IF ExactApplies(e) /\ e.cap = 0 /\ HasRun(e, -1, 1 - r.pooling)
             /\ GroupsOf(r.emits) # GroupsOf(e.runs[RunOf(e, -1, 1 - r.pooling)].emits) THEN "Inv_C07_PoolingAgnostic"
-    ELSE IF ExactApplies(e) /\ e.cap = 0 /\ ~Exact(F, Valid(F), GroupsOf(r.emits)) THEN "Inv_C07_SamePartition_vs_classes"
     ELSE "ok"
 
 SchedVerdict(e) ==
@@ -119,7 +118,7 @@ Verdict(e) == CASE e.ev = "lib"   -> LibVerdict(e)
 TInit == l = 1
 TNext == /\ l <= Len(Log)
          /\ Judge(l, Verdict(Log[l]))
-         /\ (Remark(Log[l]) = "" \/ Note(l, Log[l].tid, Remark(Log[l])))
+         /\ (IF Remark(Log[l]) = "" THEN TRUE ELSE Note(l, Log[l].tid, Remark(Log[l])))
          /\ l' = l + 1
 TAccepted == TLCGet("stats").diameter - 1 = Len(Log)
 =================================================================================================
